@@ -43,12 +43,11 @@ func (s *Scheduler) guard() func() {
 }
 
 func (s *Scheduler) exists(name string) bool {
+	r := false
 	for _, n := range s.Existing {
-		if n == name {
-			return true
-		}
+		r = vnd.Or(r, n == name) // eager: one decision per lookup, not one per recorded name
 	}
-	return false
+	return r
 }
 
 func (s *Scheduler) ScheduleJob(_ context.Context, class string, name string, runtime time.Time, job scheduler.JobFunc) error {
